@@ -10,7 +10,8 @@ THEOREMS = ["Genql.C19." + t for t in [
     "vf_fail_fails", "where_fault_propagates", "no_partial_result"]] + ["Genql.Obligations.C19.errors_not_swallowed"]
 TRUSTED = ["the go/ast detector of error-swallowing shapes is syntactic (three shapes)", "sqlparser"]
 RULE = ("queries with a fault-injecting function in every clause position (WHERE, select list, HAVING, CTE body, derived table, "
-        "row-scoped sub-query, union branch, IN sub-query, EXISTS), RAISE / RAISE_WHEN firing on some row, type errors; the "
+        "row-scoped sub-query, union branch, IN sub-query, EXISTS, ON of sequential and PARALLEL joins with partner-less keys), an "
+        "ORDER BY key unreadable on one row at every position of 3-9 row tables, RAISE / RAISE_WHEN firing on some row, type errors; the "
         "fault-free run counts the invocations n, then EVERY k = 1..n is injected (complete per query): Exec must report an error "
         "and return no rows; the Lean evaluator with the same fault (VF_FAIL fails on the k-th call's argument) must agree; a "
         "follow-up query on the same document object must equal its result on a pristine copy; non-trivial = k >= 2 or a nested "
@@ -38,7 +39,8 @@ def gen_query(rnd):
                     "join-on", "join-on"])
     if k == "join-on":
         # a user function as a boolean conjunct of a non-equi ON: evaluated once per pair of key groups by the nested loop
-        sp = rnd.choice(["JOIN", "LEFT JOIN", "RIGHT JOIN", "PARALLEL JOIN", "PARALLEL LEFT JOIN", "STRAIGHT_JOIN", "HASH_JOIN"])
+        sp = rnd.choice(["JOIN", "LEFT JOIN", "RIGHT JOIN", "PARALLEL JOIN", "PARALLEL JOIN", "PARALLEL JOIN", "PARALLEL LEFT JOIN",
+                         "STRAIGHT_JOIN", "HASH_JOIN", "PARALLEL STRAIGHT_JOIN"])
         on = ["and", ["cmp", rnd.choice(["le", "ge", "ne", "lt"]), col("x", "a"), col("y", "m")], F(["bool", True])]
         if rnd.random() < 0.3:
             on = ["or", ["cmp", "eq", col("x", "a"), col("y", "m")], F(["bool", True])]
@@ -97,7 +99,12 @@ def explore(chk, rnd, tier):
     cases = []
     for _ in range(nq):
         kind, q = gen_query(rnd)
-        cases.append({"kind": kind, "doc": gen_doc(rnd), "q": q, "sql": query_sql(q)})
+        doc = gen_doc(rnd)
+        if kind == "join-on":
+            # several left key groups, some of them without a partner (their tasks end "not matched, no error")
+            for r in doc["t"]:
+                r["a"] = rnd.choice([1, 2, 3, 4, 5, 6])
+        cases.append({"kind": kind, "doc": doc, "q": q, "sql": query_sql(q)})
     base = run_go([{"op": "query", "doc": enc_val(c["doc"]), "sql": c["sql"], "failAt": 0} for c in cases])
     lbase = run_lean([{"op": "query", "doc": enc_val(c["doc"]), "q": c["q"]} for c in cases])
     reqs, lreqs, meta = [], [], []
@@ -146,6 +153,40 @@ def explore(chk, rnd, tier):
         chk.count("other:" + name + ":" + str(o.get("r")))
         if o.get("r") != "error" or o.get("rowsWithError"):
             chk.add_violation("failure-not-reported", {"kind": name, "sql": sql, "doc": doc, "impl": o})
+            return
+    # a sort key that cannot be read on ONE row, at every position of tables of 3-9 rows: the comparator fails in the
+    # middle of the sort, and the failure must survive the comparisons that follow it
+    oreqs, lreqs2, ometa = [], [], []
+    for _ in range(40 if tier == "quick" else 600):
+        n = rnd.randint(3, 9)
+        bad = set(rnd.sample(range(n), rnd.choice([1, 1, 2])))
+        rows = [{"id": i, "meta": (7 if i in bad else {"rank": rnd.choice([1, 2, 3, 5, 8])})} for i in range(n)]
+        desc = rnd.random() < 0.5
+        oq = select([item(col("id")), item(col("meta"))], table("t"), order=[[["meta", "rank"], not desc]])
+        form = rnd.choice(["flat", "flat", "derived", "cte"])
+        sql = query_sql(oq)
+        q2 = oq
+        if form == "derived":
+            q2 = select([item(col("d", "id"), "id")], ["derived", oq, "d"])
+        elif form == "cte":
+            q2 = select([item(col("id"))], table("c"), ctes=[["c", oq]])
+        sql = query_sql(q2)
+        oreqs.append({"op": "query", "doc": enc_val({"t": rows}), "sql": sql})
+        lreqs2.append({"op": "query", "doc": enc_val({"t": rows}), "q": q2})
+        ometa.append((sql, rows))
+    outs = run_go(oreqs)
+    louts2 = run_lean(lreqs2)
+    for (sql, rows), o, l in zip(ometa, outs, louts2):
+        chk.count("order-key-fault:" + str(o.get("r")) + ":model-" + str(l.get("r")))
+        if l.get("r") == "oom":
+            continue
+        if l.get("r") != "error":
+            chk.add_violation("model-disagrees-on-fault", {"sql": sql, "doc": {"t": rows}, "impl": o, "model": l,
+                                                           "detail": "the model sorts a table whose sort key cannot be read on one row"})
+            return
+        if o.get("r") != "error":
+            chk.add_violation("fault-not-reported", {"sql": sql, "doc": {"t": rows}, "impl": o,
+                                                     "detail": "ORDER BY key unreadable on one row: Exec must fail, it returned rows"})
             return
     # usable afterwards: a failed query followed by a good one on the SAME document object
     seqs = []
